@@ -446,6 +446,7 @@ class HistProfile(object):
         self.p_persist_first = 0.0   # persist/restore straight after construction
         self.p_task_pause = 0.0     # action reports pending/paused then resumes
         self.p_item_pause = 0.0     # the same for the action of one item of a with-items task
+        self.p_bogus_report = 0.0   # a completion report for a task that does not exist or was never staged
         self.max_steps = 60
         self.fixed_outcomes = False
         self.p_any_req = 0.0        # arbitrary status requests (malformed stream), mostly after terminal
@@ -616,6 +617,13 @@ class History(object):
                 # a late or duplicate report: the other status, or the same status with another result
                 self.report(key, ("failed" if was == "succeeded" else "succeeded") if rng.random() < 0.5 else was,
                             rng.choice([7, "late", 1, 1]))
+            if hp.p_bogus_report and rng.random() < hp.p_bogus_report:
+                # malformed stream: a report for a task the definition does not have, or for one that
+                # has neither a staged entry nor a record on that route (it must be rejected untouched)
+                names = [t["name"] for t in self.defn["tasks"]]
+                who = rng.choice([("nosuch", 0), ("nosuch", 1), (rng.choice(names), 97)])
+                self.play({"op": "report", "task": who[0], "route": who[1],
+                           "status": rng.choice(["succeeded", "failed"]), "result": None})
             if hp.p_rerun_any and st not in ("succeeded", "failed", "canceled") and rng.random() < hp.p_rerun_any:
                 self.play({"op": "rerun", "reqs": []})
             if hp.p_any_req and rng.random() < hp.p_any_req * (0.15 if st not in ("succeeded", "failed", "canceled") else 1.0):
